@@ -350,7 +350,7 @@ fn cmd_native(args: &[String]) -> i32 {
                             for t in &out.obs {
                                 for o in t {
                                     match o {
-                                        Obs::Done(s) => od.bytes(run::canonical(s).as_bytes()),
+                                        Obs::Done(s) => od.bytes(s.as_bytes()),
                                         Obs::Victim(s) => od.byte(*s),
                                     }
                                     od.byte(0);
@@ -525,17 +525,23 @@ fn cmd_refdigest(args: &[String]) -> i32 {
     let seed = arg_u64(args, "--seed", 1);
     let first = arg_u64(args, "--first", 0);
     let count = arg_u64(args, "--count", 200);
+    let reverse = arg_u64(args, "--reverse", 0) != 0;
     silence_panics();
     sched::install_repo_hook();
     let h = std::thread::Builder::new()
         .stack_size(run::STACK)
         .spawn(move || {
             let mut rows = Vec::new();
-            for idx in first..first + count {
+            let mut order: Vec<u64> = (first..first + count).collect();
+            if reverse {
+                order.reverse();
+            }
+            for idx in order {
                 let plan = plan_run(seed, idx);
                 let r = run::reference(&plan.workload);
                 rows.push((idx, digest_reference(&r)));
             }
+            rows.sort_unstable();
             rows
         })
         .unwrap();
@@ -560,6 +566,7 @@ fn main() {
         Some("replay") => cmd_replay(&args[1..]),
         Some("refdigest") => cmd_refdigest(&args[1..]),
         Some("show") => cmd_show(&args[1..]),
+        Some("panics") => cmd_panics(&args[1..]),
         Some("plain") => plain::cmd_plain(&args[1..], &YIELD_EVERY),
         _ => {
             eprintln!("usage: sim native|replay|refdigest|plain|show ...");
@@ -567,4 +574,29 @@ fn main() {
         }
     };
     std::process::exit(code);
+}
+
+#[allow(dead_code)]
+pub fn cmd_panics(args: &[String]) -> i32 {
+    let seed = arg_u64(args, "--seed", 1);
+    let count = arg_u64(args, "--count", 300);
+    silence_panics();
+    let mut hist: BTreeMap<String, (u64, String)> = BTreeMap::new();
+    for idx in 0..count {
+        let plan = plan_run(seed, idx);
+        let r = run::reference(&plan.workload);
+        for (t, ops) in r.iter().enumerate() {
+            for (i, o) in ops.iter().enumerate() {
+                if o.starts_with("panic:") {
+                    let key: String = o.chars().take(60).collect();
+                    let e = hist.entry(key).or_insert((0, format!("{:?}", plan.workload.threads[t][i])));
+                    e.0 += 1;
+                }
+            }
+        }
+    }
+    for (k, (n, ex)) in hist {
+        println!("{n:6} {k}   e.g. {}", ex.chars().take(200).collect::<String>());
+    }
+    0
 }
